@@ -626,6 +626,53 @@ VERUS_LIFTS["goto_block"] = goto_block_range
 
 
 # ---------------------------------------------------------------------------
+# ACCEPT on STOP (C01): the statement `for &symbol in per_next_symbol.keys() { if symbol == stop_index { .. break; } }` of calc_states
+
+ACCEPT_DECLARED = ["per_next_symbol", "self", "state"]
+ACCEPT_START = "for &symbol in per_next_symbol.keys() {"
+
+
+def accept_block_range(repo):
+    rel = "rustemo-compiler/src/table/mod.rs"
+    src = rsx.Source(os.path.join(repo, rel))
+    imp = src.find_impl(r"^impl < 'g , 's > LRTable < 'g , 's >", has="calc_states")
+    fn = imp.child("fn", "calc_states")
+    t = src.toks
+    body_s = t[fn.body_open].e
+    body = src.text[body_s:t[fn.body_close].s]
+    if body.count(ACCEPT_START) != 1:
+        raise ExtractError("accept block: anchor `%s` not found exactly once in calc_states" % ACCEPT_START)
+    lo_off = body_s + body.index(ACCEPT_START)
+    lo = next(i for i in range(fn.body_open, fn.body_close) if t[i].s == lo_off)
+    k = lo
+    while t[k].text != "{":
+        k += 1
+    hi = src.match(k) + 1
+    block_text = src.text[t[lo].s:t[hi - 1].e]
+    outside = bound_names_outside(src, fn, lo, hi)
+    used = set(idents(src, lo, hi))
+    inside = bound_names_inside(src, lo, hi)
+    free = sorted(((outside & used) - inside) | ({"self"} if "self" in used else set()))
+    if free != ACCEPT_DECLARED:
+        raise ExtractError(f"accept block: free variables changed: now {free}, declared {ACCEPT_DECLARED}")
+    # the map the loop reads is the one the preceding statement builds from the state's items (pinned)
+    head = "".join(x.text for x in t[fn.body_open + 1:lo] if x.kind not in ("ws", "comment"))
+    if not head.endswith("letper_next_symbol=state.group_per_next_symbol();"):
+        raise ExtractError("accept block: the statement in front of the range is no longer `let per_next_symbol = state.group_per_next_symbol();`")
+    sha = hashlib.sha256(block_text.encode()).hexdigest()[:16]
+    meta = {"lift": "accept_block", "file": rel, "lines": [src.line_of(t[lo].s), src.line_of(t[hi - 1].s)], "sha256_16": sha, "free_variables": ACCEPT_DECLARED,
+            "note": "the statement `for &symbol in per_next_symbol.keys() { .. }` of calc_states, verbatim: `state` is the state popped from the queue (a local LRState, "
+                    "`&mut` here), `per_next_symbol` the map `state.group_per_next_symbol()` returned in the statement in front of the range (pinned; a local "
+                    "BTreeMap, `&` here)"}
+    header = ("impl<'g, 's> LRTable<'g, 's> {\n    fn accept_block(\n        &self,\n        state: &mut LRState<'g>,\n"
+              "        per_next_symbol: &BTreeMap<SymbolIndex, Vec<ItemIndex>>,\n    ) {\n            ")
+    return header + block_text + "\n    }\n}\n", meta
+
+
+VERUS_LIFTS["accept_block"] = accept_block_range
+
+
+# ---------------------------------------------------------------------------
 # TokenIterator::next (C06): the whole body of <TokenIterator as Iterator>::next as an inherent method, so that it can
 # carry a precondition (Verus: a trait method implementation cannot declare `requires`).
 
